@@ -3,7 +3,7 @@
 From Coq Require Import Extraction ExtrOcamlBasic.
 From Coq Require Import List NArith.
 From Base Require Import Bytes.
-From Fw Require Import Model Spec World ScopeDefs GenScope Scope.
+From Fw Require Import Model Spec World ScopeDefs GenScope ScopeModel.
 Extraction Language OCaml.
 Extraction "fw_model.ml"
   step init wstep winit dispatch_data with_faces get_face name_eqb is_prefix dnl_has up_token
